@@ -7,10 +7,16 @@
    operands in registers or spill slots, every aliasing between operands, and every contents of
    registers and memory, the instruction sequence the model emits has exactly the abstract
    operation's effect and changes nothing but the target, rcx and the flags.
-   What is NOT proved: the memory operations (store/load/acquire/erase/share) at L1 -> L2 and the
-   generic simulation L0 -> L1; whole-program preservation is therefore established by the
-   correspondence check plus execution of the implementation's output on the ISA model against
-   the AxCut machine (see the evidence file), and stated below as C06_codegen_correct_statement. *)
+   PROVED in addition (second part of this file): the forward simulation L0 -> L2 for the INTEGER
+   FRAGMENT (every variable `ext i64`; statements Substitute / Call / Literal / Op / PrintI64 / IfC / Exit):
+   a state relation `rel`, one simulation theorem per statement form for every context shape, their
+   composition by induction on the machine's fuel (`C06_sim_exec`), the layout of the code image, the
+   prologue and epilogue, and the whole-program theorem `C06_codegen_simulates_int`.
+   What is NOT proved: the simulation for the heap statements Let / Switch / Create / Invoke (their
+   building blocks share/erase/release/acquire are refined to x86-64 under C09); for programs using them
+   whole-program preservation is established by the correspondence check plus execution of the
+   implementation's output on the ISA model against the AxCut machine (see the evidence file); the
+   full statement is C06_codegen_correct_statement below. *)
 From Coq Require Import List ZArith NArith String Bool.
 From SCC Require Import Lang.AxSyn Sem.AxSem Model.Backend Model.X86 Sem.X86Sem Proof.X86State Proof.X86Sel Proof.X86Consts.
 Import ListNotations.
@@ -99,3 +105,238 @@ Definition C06_codegen_correct_statement : Prop :=
     x86_compile p lc = Ok (cs, n, lc') ->
     run_linear fuel p args = o -> defined o = true ->
     exists outer inner, fst (run_x86 outer inner cs args) = o.
+
+
+(* ======================================================================================== *)
+(* Forward simulation of the generic code generator instantiated at x86-64, integer fragment *)
+(* ======================================================================================== *)
+From SCC Require Import Model.ParMoves Model.LinCheck Sem.X86Wf Proof.X86Exec Proof.SubstGraph Proof.X86Subst
+     Proof.X86SimRel Proof.X86SimStmt Proof.X86SimPrint Proof.X86SimProg Proof.X86SimTop Proof.X86SimExample.
+Open Scope list_scope.
+(* THE STATE RELATION  `rel c e s sp`  (Proof/X86SimRel.v) between a configuration of the linear AxCut
+   machine - the typing context c the generator threads and the environment e, a list of (name, value)
+   by position - and an ISA state s:  rsp = sp with the whole spill area inside the stack region,
+   sp = 8 (mod 16), room below sp for the pushes around a print call; e and c name the same ids in the
+   same order, pairwise distinct; the value at position i is an integer z and the SECOND temporary of
+   position i (register 5+2i, or spill slot 2i-10 from position 6 on) holds z.
+   `frame_eq s s' sp`: heap, high-water mark, output and every stack word outside the spill area are
+   unchanged; `above_eq`: heap, high-water mark and every stack word at or above sp are unchanged.
+   First consequence: the machine's operand lookup and the generator's `variable_temporary` meet. *)
+Theorem C06_sim_rel_reads :
+  forall (c : ctx) (e : env) (s : xstate) (sp : Z) (a : ident) (x : Z),
+    rel c e s sp -> lookup_int e a = Some x ->
+    exists i b t, nth_error c i = Some b /\ idn (bvar b) = idn a /\ tpos x86_backend Snd i = Ok t /\ lget s sp t = Some x.
+Proof. exact rel_lookup. Qed.
+Print Assumptions C06_sim_rel_reads.
+
+(* One theorem per statement form.  In each: ANY context c (any number of variables, so operands and
+   target in registers or spill slots in every combination; operands may coincide), the hypotheses on
+   the machine side are exactly the conditions under which `exec_linear` takes the step, the temporaries
+   are whatever `code_statement` computed (`variable_temporary … = Ok t`), and the conclusion relates the
+   state after the emitted code to the machine's next environment. *)
+Theorem C06_sim_literal :
+  forall (im : image) (c : ctx) (e : env) (s : xstate) (sp : Z) (n : Z) (v : ident) (tv : xtemp),
+    rel c e s sp -> NoDup (ids (c ++ [mkb v Ext I64])) ->
+    variable_temporary x86_backend Snd (c ++ [mkb v Ext I64]) (idn v) = Ok tv ->
+    exists s', exec_straight im (x_load_immediate tv n) s = Some s' /\
+               rel (c ++ [mkb v Ext I64]) (e ++ [(v, VInt n)]) s' sp /\ frame_eq s s' sp.
+Proof. exact sim_literal. Qed.
+Print Assumptions C06_sim_literal.
+
+(* all five operators; the result is the AxCut value (wrap-around for + - *, truncation for / %) *)
+Theorem C06_sim_op :
+  forall (im : image) (c : ctx) (e : env) (s : xstate) (sp : Z) (a : ident) (o : binop) (b v : ident) (x y z : Z)
+         (tv ta tb : xtemp),
+    rel c e s sp -> NoDup (ids (c ++ [mkb v Ext I64])) ->
+    lookup_int e a = Some x -> lookup_int e b = Some y -> eval_op o x y = OpVal z ->
+    variable_temporary x86_backend Snd (c ++ [mkb v Ext I64]) (idn v) = Ok tv ->
+    variable_temporary x86_backend Snd (c ++ [mkb v Ext I64]) (idn a) = Ok ta ->
+    variable_temporary x86_backend Snd (c ++ [mkb v Ext I64]) (idn b) = Ok tb ->
+    exists s', exec_straight im (x_arith o tv ta tb) s = Some s' /\
+               rel (c ++ [mkb v Ext I64]) (e ++ [(v, VInt z)]) s' sp /\ frame_eq s s' sp.
+Proof. exact sim_op. Qed.
+Print Assumptions C06_sim_op.
+
+(* the undefined cases (divisor 0, min_int / -1, for Div and Rem): the emitted code runs into the
+   faulting idiv, which the ISA model reports with the same reason, output unchanged *)
+Theorem C06_sim_op_undefined :
+  forall (im : image) (c : ctx) (e : env) (s : xstate) (sp : Z) (a : ident) (o : binop) (b v : ident) (x y : Z) (w : string)
+         (tv ta tb : xtemp),
+    rel c e s sp -> NoDup (ids (c ++ [mkb v Ext I64])) ->
+    lookup_int e a = Some x -> lookup_int e b = Some y -> eval_op o x y = OpUndef w ->
+    variable_temporary x86_backend Snd (c ++ [mkb v Ext I64]) (idn v) = Ok tv ->
+    variable_temporary x86_backend Snd (c ++ [mkb v Ext I64]) (idn a) = Ok ta ->
+    variable_temporary x86_backend Snd (c ++ [mkb v Ext I64]) (idn b) = Ok tb ->
+    exists s', exec_undef im (x_arith o tv ta tb) s = Some (w, s') /\ out s' = out s.
+Proof. exact sim_op_undef. Qed.
+Print Assumptions C06_sim_op_undefined.
+Theorem C06_sim_op_undefined_observed :
+  forall (im : image) (pc : positive) (cs : list xcode) (s : xstate) (w : string) (s' : xstate),
+    code_at im pc cs -> exec_undef im cs s = Some (w, s') -> finishes im pc s (finish (out s') (OUndef w)).
+Proof. exact exec_undef_finishes. Qed.
+Print Assumptions C06_sim_op_undefined_observed.
+
+(* IfC, all six comparison sorts, two-operand form (b = Some _) and zero form (b = None): control reaches
+   the first instruction of the branch the machine takes - the else branch right after the jump, the then
+   branch right after the label - in a related state *)
+Theorem C06_sim_ifc :
+  forall (im : image) (c : ctx) (e : env) (s : xstate) (sp : Z) (so : ifsort) (a : ident) (b : option ident) (x y : Z)
+         (types : list tydecl) (thenc elsec : stmt) (lc : N) (code : list xcode) (lc' : N) (pc : positive),
+    rel c e s sp -> lookup_int e a = Some x ->
+    match b with Some b => lookup_int e b | None => Some 0 end = Some y ->
+    code_statement x86_backend types (IfC so a b thenc elsec) c lc = Ok (code, lc') ->
+    code_at im pc code -> labels_at_nh im pc code ->
+    exists c1 c2 lc2 c3 s',
+      code = c1 ++ c2 ++ [LAB (iflabel lc)] ++ c3 /\
+      code_statement x86_backend types elsec c (lc + 1)%N = Ok (c2, lc2) /\
+      code_statement x86_backend types thenc c lc2 = Ok (c3, lc') /\
+      exec_to im pc s (if eval_cmp so x y then padd pc (List.length c1 + List.length c2 + 1)
+                       else padd pc (List.length c1)) s' /\
+      rel c e s' sp /\ frame_eq s s' sp.
+Proof. exact sim_ifc. Qed.
+Print Assumptions C06_sim_ifc.
+
+(* Substitute (integer fragment): no reference count is touched, and the parallel moves leave the
+   machine's rearranged environment in the new context's temporaries (uses C11_x86_parallel_moves_simultaneous
+   and C11_substitute_graph_edges) *)
+Theorem C06_sim_substitute :
+  forall (im : image) (c : ctx) (e : env) (s : xstate) (sp : Z) (re : list (binding * ident)) (vs : list value) (e' : env)
+         (c1 : list xcode) (lc lc1 : N) (c2 : list xcode),
+    rel c e s sp -> ctx_int c = true -> NoDup (new_ids re) ->
+    lookups e (map snd re) = Some vs -> bind (map (fun r => bvar (fst r)) re) vs = Some e' ->
+    code_weakening_contraction x86_backend (transpose re c) c lc = Ok (c1, lc1) ->
+    code_exchange x86_backend (transpose re c) c (map fst re) = Ok c2 ->
+    c1 = [] /\ lc1 = lc /\
+    exists s', exec_straight im c2 s = Some s' /\ rel (map fst re) e' s' sp /\ frame_eq s s' sp.
+Proof. exact sim_substitute. Qed.
+Print Assumptions C06_sim_substitute.
+
+(* PrintI64 on the external-call model (alignment check at the call, havoc of rax rcx rdx rsi rdi r8-r11,
+   of the flags and of the stack below rsp): the printed value is the variable's, every live variable of
+   EVERY integer context survives (backup registers for <= 4 variables, mixed at 5, pushes from 6 on,
+   spilled variables untouched), rsp is restored *)
+Theorem C06_sim_print :
+  forall (im : image) (c : ctx) (e : env) (s : xstate) (sp : Z) (nl : bool) (v : ident) (z : Z) (tv : xtemp),
+    rel c e s sp -> ctx_int c = true -> lookup_int e v = Some z ->
+    variable_temporary x86_backend Snd c (idn v) = Ok tv ->
+    exists s', exec_straight im (x_print nl tv c) s = Some s' /\
+               rel c e s' sp /\ out s' = (nl, z) :: out s /\ above_eq s s' sp.
+Proof. exact sim_print. Qed.
+Print Assumptions C06_sim_print.
+
+(* Call: the jump changes no state; the callee's context relabels the same positions *)
+Theorem C06_sim_call :
+  forall (c : ctx) (e : env) (st : xstate) (sp : Z) (c' : ctx) (e' : env),
+    rel c e st sp -> NoDup (ids c') -> List.length c' = List.length c ->
+    bind (vars c') (map snd e) = Some e' -> rel c' e' st sp.
+Proof. exact bind_rel. Qed.
+Print Assumptions C06_sim_call.
+
+(* Exit: the result reaches rax; from `cleanup`, with the frame the prologue built above the spill area
+   (`outer_ok`), the run ends with OExit of that value: rsp and rbx rbp r12-r15 have their entry values *)
+Theorem C06_sim_exit :
+  forall (im : image) (c : ctx) (e : env) (s : xstate) (sp : Z) (v : ident) (z : Z) (tv : xtemp),
+    rel c e s sp -> lookup_int e v = Some z -> variable_temporary x86_backend Snd c (idn v) = Ok tv ->
+    exists s', exec_straight im (x_mov (XR RETURN1) tv) s = Some s' /\ rget s' RETURN1 = Some z /\
+               frame_ok s' sp /\ frame_eq s s' sp.
+Proof. exact sim_exit_mov. Qed.
+Print Assumptions C06_sim_exit.
+Theorem C06_sim_epilogue :
+  forall (im : image) (pcc : positive) (s : xstate) (sp : Z) (z : Z),
+    code_at im pcc cleanup -> frame_ok s sp -> outer_ok s sp -> rget s RETURN1 = Some z ->
+    finishes im pcc s (finish (out s) (OExit z)).
+Proof. exact epilogue_ok. Qed.
+Print Assumptions C06_sim_epilogue.
+
+(* the prologue: from the entry state of a C call with up to five integer arguments, `setup` builds the
+   frame and leaves argument i in the register of position i *)
+Theorem C06_sim_prologue :
+  forall (im : image) (args : list Z) (su : list xcode),
+    setup (List.length args) = Ok su ->
+    exists s, exec_straight im su (init_state args) = Some s /\
+      frame_ok s sp0 /\ outer_ok s sp0 /\ out s = [] /\
+      (forall i, (i < List.length args)%nat -> rget s (5 + 2 * N.of_nat i)%N = Some (nth i args 0)).
+Proof. exact prologue_ok. Qed.
+Print Assumptions C06_sim_prologue.
+
+(* composition: for a statement of the fragment that is linearly well-typed in its (integer) context,
+   whose code sits in an image where the definitions' labels and `cleanup` resolve to the code emitted
+   for them, the ISA run from a related state ends with exactly the observation of the linear machine -
+   print trace and result, or the undefined operation - whenever the machine's run ends that way *)
+Theorem C06_sim_exec :
+  forall (im : image) (p : prog) (sp : Z),
+    (forall d, In d (pdefs p) ->
+       exists pcd lcd cd lcd', find_label (labels im) (show_ident (dname d) +++ "_") = Some pcd /\
+         PM.find pcd (code im) = Some (LAB (show_ident (dname d) +++ "_")) /\
+         code_statement x86_backend (ptypes p) (dbody d) (dctx d) lcd = Ok (cd, lcd') /\
+         code_at im (Pos.succ pcd) cd /\ labels_at_nh im (Pos.succ pcd) cd) ->
+    (exists pcc, find_label (labels im) "cleanup" = Some pcc /\ code_at im pcc cleanup) ->
+    (forall d, In d (pdefs p) -> lin_check (sigs_of p) (dctx d) (dbody d) = true) ->
+    (forall d, In d (pdefs p) -> def_int d = true) ->
+    forall (fuel : nat) (s : stmt) (c : ctx) (e : env) (ot : prints) (st : xstate) (pc : positive)
+           (code : list xcode) (lc lc' : N),
+      stmt_int s = true -> ctx_int c = true -> lin_check (sigs_of p) c s = true ->
+      code_statement x86_backend (ptypes p) s c lc = Ok (code, lc') ->
+      code_at im pc code -> labels_at_nh im pc code ->
+      rel c e st sp -> outer_ok st sp -> out st = ot ->
+      good (exec_linear fuel p e s ot) -> finishes im pc st (exec_linear fuel p e s ot).
+Proof. exact sim_exec. Qed.
+Print Assumptions C06_sim_exec.
+
+(* layout: in the image of an instruction list that passes the assembler-level check `asm_wf` (C14,
+   evaluated on the REAL output on every run), instruction j sits at index 1+j and every label not
+   starting with '#' resolves to its own position *)
+Theorem C06_image_layout :
+  forall cs : list xcode,
+    asm_wf cs = None -> code_at (mk_image cs) 1%positive cs /\ labels_at_nh (mk_image cs) 1%positive cs.
+Proof. exact mk_image_layout. Qed.
+Print Assumptions C06_image_layout.
+
+(* THE PROGRAM-LEVEL THEOREM for the integer fragment.  For every program p whose definitions all have
+   integer contexts and bodies made of Substitute / Call / Literal / Op / PrintI64 / IfC / Exit
+   (`int_frag`), whose definition names do not start with '#' (`plain_names`: true of every name the
+   parser or the pipeline produces), that is linearly well-typed (`lin_check_prog`, C05), for every
+   label-counter start, every argument list and every fuel: if the code the generator emits passes
+   `asm_wf` (labels unique) and the linear machine ends with a result or with an undefined operation,
+   then the ISA run of the emitted code on the same arguments makes the same print calls with the same
+   values and ends the same way (same result; same undefined-operation reason).
+   Missing to the full C06_codegen_correct_statement: the heap statements Let / Switch / Create /
+   Invoke; label uniqueness is a checked hypothesis (asm_wf), not a theorem. *)
+Theorem C06_codegen_simulates_int :
+  forall (p : prog) (lc : N) (cs : list xcode) (n : nat) (lc' : N) (args : list Z) (fuel : nat) (o : obs),
+    int_frag p = true -> plain_names p = true -> lin_check_prog p = true ->
+    x86_compile p lc = Ok (cs, n, lc') -> asm_wf cs = None ->
+    run_linear fuel p args = o ->
+    ((exists z, snd o = OExit z) \/ (exists w, snd o = OUndef w)) ->
+    exists outer inner, fst (run_x86 outer inner cs args) = o.
+Proof. exact x86_codegen_simulates_int. Qed.
+Print Assumptions C06_codegen_simulates_int.
+
+(* the same theorem under the name the partial-statement convention asks for: C06_codegen_correct_statement
+   restricted to the integer fragment (missing: Let / Switch / Create / Invoke) *)
+Theorem C06_codegen_correct_partial :
+  forall (p : prog) (lc : N) (cs : list xcode) (n : nat) (lc' : N) (args : list Z) (fuel : nat) (o : obs),
+    int_frag p = true -> plain_names p = true -> lin_check_prog p = true -> asm_wf cs = None ->
+    x86_compile p lc = Ok (cs, n, lc') ->
+    run_linear fuel p args = o -> defined o = true ->
+    exists outer inner, fst (run_x86 outer inner cs args) = o.
+Proof. exact x86_codegen_correct_int. Qed.
+Print Assumptions C06_codegen_correct_partial.
+
+(* the hypotheses are satisfiable by a non-trivial program (two definitions calling each other, literals,
+   Sum Sub Prod Div Rem, both forms of IfC, a three-way explicit substitution with a duplicated source,
+   prints), and the conclusion is what evaluation shows: Proof/X86SimExample.v *)
+Theorem C06_codegen_simulates_int_example_hypotheses :
+  int_frag ex_prog = true /\ plain_names ex_prog = true /\ lin_check_prog ex_prog = true /\
+  (exists n lc', x86_compile ex_prog 0 = Ok (ex_code, n, lc')) /\ asm_wf ex_code = None.
+Proof. exact ex_hypotheses. Qed.
+Print Assumptions C06_codegen_simulates_int_example_hypotheses.
+Theorem C06_codegen_simulates_int_example_runs :
+  run_linear 50 ex_prog [0] = ([(true, 10); (false, -70)], OExit 10) /\
+  fst (run_x86 10 1000 ex_code [0]) = ([(true, 10); (false, -70)], OExit 10) /\
+  run_linear 50 ex_prog [12] = ([(true, 22); (false, 1)], OExit 11) /\
+  fst (run_x86 10 1000 ex_code [12]) = ([(true, 22); (false, 1)], OExit 11) /\
+  run_linear 50 ex_prog [10] = ([(true, 20)], OUndef "div0"%string) /\
+  fst (run_x86 10 1000 ex_code [10]) = ([(true, 20)], OUndef "div0"%string).
+Proof. exact ex_runs. Qed.
+Print Assumptions C06_codegen_simulates_int_example_runs.
